@@ -9,8 +9,9 @@ preservation by `getUpdate`, `setEntryRes`, `update1`, `updateAll`, `adjust`, `a
   would start from in the model (`updBase`);
 * `EntOK`     — every collected entry carries exactly `updBase` of its target.
 
-Hypothesis throughout: no single update names one item twice (`(setsUpd u).Nodup`; implied by
-the correspondence driver's guard `dupWithin`). Core Lean only.
+Hypothesis throughout: no update marked ignore-failure names one item twice (`NoDupItems`;
+implied by the correspondence driver's guard `dupWithin`). An update that is not marked
+ignore-failure and names an item twice fails the request, so it needs no hypothesis. Core Lean only.
 -/
 import NriModel.Lemmas.ResultWalk
 
@@ -278,7 +279,7 @@ theorem setEntryRes_walk (st : State) (id : Cid) (res : Resources) (ok : EntOK s
 /-! ### one update -/
 
 theorem update1_rel (base : Cid → Resources) (st st' : State) (s : Sim) (p : Plugin) (u : Update)
-    (rel : Rel base st s) (ok : EntOK st) (hnd : (setsUpd u).Nodup)
+    (rel : Rel base st s) (ok : EntOK st) (hnd0 : u.ignoreFailure = true → (setsUpd u).Nodup)
     (h : update1 Quirks.fixed st p u = .ok st') :
     Rel base st' (simUpdate base s u) ∧ EntOK st' := by
   rcases update1_cases Quirks.fixed st p u with ⟨e, _, he⟩ | ⟨st1, hg, h2⟩
@@ -286,6 +287,11 @@ theorem update1_rel (base : Cid → Resources) (st st' : State) (s : Sim) (p : P
   · obtain ⟨hown, hk1⟩ := getUpdate_owners _ st st1 p u hg
     obtain ⟨hub, ok1, hex, hnc⟩ := getUpdate_walk st st1 p u hg ok
     simp only [updSets_fixed] at h2
+    have hnd : (setsUpd u).Nodup := by
+      rcases h2 with ⟨o, hc, _⟩ | ⟨o, e, _, (⟨hi, _⟩ | ⟨_, hu⟩)⟩
+      · exact claimAll_ok_nodup _ _ _ _ _ ((claimAllPartial_none_iff _ _ _ _ _).1 hc)
+      · exact hnd0 hi
+      · rw [hu] at h; cases h
     obtain ⟨hsp1, hsp2⟩ := claimAllPartial_spec u.containerId p (setsUpd u) st1.owners hnd
     -- the walk's free prefix is the ledger's
     have hfree : freeOf s u = (setsUpd u).takeWhile fun it => (st1.owners.owner u.containerId it).isNone := by
@@ -373,8 +379,9 @@ theorem update1_rel (base : Cid → Resources) (st st' : State) (s : Sim) (p : P
       | some r => simp only [Bool.false_eq_true, false_and, ↓reduceIte]; exact hv
     · rw [hu] at h; cases h
 
-/-- no update of the list names one item twice -/
-def NoDupItems (us : List Update) : Prop := ∀ u ∈ us, (setsUpd u).Nodup
+/-- no update of the list that is marked ignore-failure names one item twice (one that is not
+    marked and does fails the request) -/
+def NoDupItems (us : List Update) : Prop := ∀ u ∈ us, u.ignoreFailure = true → (setsUpd u).Nodup
 
 theorem updateAll_rel (base : Cid → Resources) (p : Plugin) (us : List Update) :
     ∀ (st st' : State) (s : Sim), Rel base st s → EntOK st → NoDupItems us →
@@ -572,5 +579,37 @@ theorem viewsAlong_run (q : Quirks) (rs : List (Plugin × Option Response)) :
 theorem answeredAll_take (rs : List (Plugin × Response)) (i : Nat) :
     (answeredAll rs).take i = answeredAll (rs.take i) := by
   unfold answeredAll; rw [List.map_take]
+
+/-! ### chains in which some plugins do not answer -/
+
+/-- the plugins of a chain that answered, with their responses -/
+def answered : List (Plugin × Option Response) → List (Plugin × Response)
+  | [] => []
+  | (_, none) :: rest => answered rest
+  | (p, some r) :: rest => (p, r) :: answered rest
+
+/-- a plugin that is not subscribed or was dropped leaves the collector state alone -/
+theorem run_answered (q : Quirks) (rs : List (Plugin × Option Response)) :
+    ∀ st, run q st rs = run q st (answeredAll (answered rs)) := by
+  induction rs with
+  | nil => intro st; rfl
+  | cons x rest ih =>
+    intro st
+    obtain ⟨p, r⟩ := x
+    cases r with
+    | none => simp only [run, answered]; exact ih st
+    | some r =>
+      simp only [run, answered, answeredAll, List.map_cons]
+      cases apply q st p r with
+      | error e => rfl
+      | ok st1 => exact ih st1
+
+theorem answered_answeredAll (rs : List (Plugin × Response)) : answered (answeredAll rs) = rs := by
+  induction rs with
+  | nil => rfl
+  | cons x rest ih =>
+    obtain ⟨p, r⟩ := x
+    simp only [answeredAll, List.map_cons, answered] at ih ⊢
+    rw [ih]
 
 end Nri.Result
